@@ -104,10 +104,19 @@ Definition serve (t : list entry) (extra_fallbacks : list bytes) (host_header ur
 (* trimPathPrefix for paths that need no escaping *)
 Fixpoint trim_prefix (s p : bytes) : bytes :=
   if has_prefix s p then skipn (length p) s else s.
+(* trimPathPrefix hands the trimmed text back to url.Parse: a result that starts with "//" is read
+   as "//authority/path", so the text up to the next "/" disappears from the path *)
+Fixpoint drop_to_slash (s : bytes) : bytes :=
+  match s with [] => [] | c :: r => if c =? SLASH then s else drop_to_slash r end.
+Definition reparse (t : bytes) : bytes :=
+  match t with
+  | a :: b :: r => if (a =? SLASH) && (b =? SLASH) then drop_to_slash r else t
+  | _ => t
+  end.
 Definition trimmed_path (url_path prefix : bytes) : bytes :=
   if beq prefix [SLASH] then url_path
   else let t := trim_prefix url_path prefix in
-       match t with c :: _ => if c =? SLASH then t else SLASH :: t | [] => [SLASH] end.
+       reparse (match t with c :: _ => if c =? SLASH then t else SLASH :: t | [] => [SLASH] end).
 
 (* ================= the real data structure: vhostTrie ================= *)
 (* type vhostTrie struct { fallbackHosts; edges map[string]*vhostTrie; site *SiteConfig; path string }
@@ -282,10 +291,13 @@ Definition spec (sites : list (bytes * N)) (extra_fallbacks : list bytes)
   end.
 
 (* ---- case ---- *)
+(* obs_trace: the ids of the sites whose marker middleware ran, in order (so both WHICH site ran
+   and HOW MANY handlers ran are observed); obs_prefix: the "path_prefix" context value the
+   chain saw; obs_path: the URL path the chain saw (after trimPathPrefix) *)
 Inductive case :=
 | CRoute (sites : list (bytes * N)) (extra_fallbacks : list bytes) (host_header url_path : bytes)
          (proto : N) (simple : bool)
-         (obs_site : option N) (obs_status : N) (obs_calls : N) (obs_path : bytes).
+         (obs_trace : list N) (obs_status : N) (obs_prefix obs_path : bytes).
 
 Definition keys_distinct (sites : list (bytes * N)) : bool :=
   let ks := map (fun s => split_host_path (fst s)) sites in
@@ -295,25 +307,44 @@ Definition keys_distinct (sites : list (bytes * N)) : bool :=
       | (h, p) :: r => negb (existsb (fun k => beq (fst k) h && beq (snd k) p) r) && nd r
       end in nd ks.
 
+Definition routed_eqb (a b : routed) : bool :=
+  match a, b with
+  | Site s p, Site s' p' => (s =? s') && beq p p'
+  | NotFound st, NotFound st' => st =? st'
+  | _, _ => false
+  end.
+
 Definition judge (c : case) : N :=
   match c with
-  | CRoute sites xf hh up proto simple os ost ocalls opath =>
-      let t := build sites in
-      let r := serve t xf hh up proto in
+  | CRoute sites xf hh up proto simple otrace ost oprefix opath =>
+      (* the model that runs is the real trie: Insert each site, then serveHTTP's Match *)
+      let r := tserve (tbuild sites) xf hh up proto in
       let agree :=
-        match r, os with
-        | Site s prefix, Some s' => (s =? s') && (ocalls =? 1) &&
-                                    (negb simple || beq (trimmed_path up prefix) opath)
-        | NotFound st, None => (st =? ost) && (ocalls =? 0)
-        | _, _ => false
+        list_beq N.eqb otrace (handlers_run r) &&
+        match r with
+        | Site s prefix => beq prefix oprefix && (ost =? 200) &&
+                           (negb simple || beq (trimmed_path up prefix) opath)
+        | NotFound st => st =? ost
         end in
-      (* spec evaluated on the implementation's answer, on independently normalised keys *)
+      (* what was observed, as a routing outcome *)
+      let obs := match otrace with
+                 | [] => Some (NotFound ost)
+                 | [s] => Some (Site s oprefix)
+                 | _ => None                      (* more than one site's handlers ran *)
+                 end in
+      let os := match otrace with [s] => Some s | _ => None end in
+      let ocalls := N.of_nat (length otrace) in
+      (* spec, part 1: the end-to-end declarative statement (proved equal to the model for all
+         inputs, C01_route_spec) evaluated on the implementation's answer *)
+      let spec1 := match obs with Some o => routed_eqb o (spec sites xf hh up proto) | None => false end in
+      (* spec, part 2: an independently written argmax-style reading over independently
+         normalised keys *)
       let t := map spec_entry sites in
-      let host := spec_norm_host hh in
-      let path := up in
+      let host := spec_norm_host (upto_slash (strip_port hh ++ up)) in
+      let path := SLASH :: after_slash (strip_port hh ++ up) in
       let fallbacks := map spec_norm_host (default_fallbacks ++ xf) in
       let hk := first_some (match_host t) (host :: fallbacks) in
-      let spec :=
+      let spec2 :=
         match os with
         | Some s =>
             (ocalls =? 1) &&
@@ -324,6 +355,7 @@ Definition judge (c : case) : N :=
                                           (host :: fallbacks) with Some h => h | None => host end) k &&
                 (* s owns the longest stored prefix of the path under host key k *)
                 existsb (fun e => beq (e_host e) k && (e_site e =? s) && has_prefix path (e_path e) &&
+                                  beq (e_path e) oprefix &&
                                   forallb (fun e' => negb (beq (e_host e') k && has_prefix path (e_path e'))
                                                      || Nat.leb (length (e_path e')) (length (e_path e))) t) t
             end
@@ -334,5 +366,5 @@ Definition judge (c : case) : N :=
             | Some k => forallb (fun e => negb (beq (e_host e) k && has_prefix path (e_path e))) t
             end
         end in
-      verdict agree spec
+      verdict agree (spec1 && spec2)
   end.
